@@ -51,7 +51,8 @@ def generate(run: Run, maxlex: int) -> list[dict]:
     tab = table(run)
     bad = no_adjacent(tab)
     out, seen = [], set()
-    configs = [(set(range(1, len(tab) + 1)), min(maxlex, 2)), (CORE, maxlex)]
+    small = {1, 6, 16, 20, 26, 45, 46, 47, 54, 73, 74, 82, 87, 91, 94, 96, 98}
+    configs = [(set(range(1, len(tab) + 1)), min(maxlex, 2)), (CORE, min(maxlex, 3))] + ([(small, 4)] if maxlex >= 4 else [])
     for ci, (use, n) in enumerate(configs):
         f = os.path.join(run.dir, f"lexgen{ci}.ndjson")
         run_tlc(run, "LexGen", CFG % "Export", env={"OUT": f}, name=f"lexgen{ci}", consts={"MaxLex": n, "Use": set(use), "NoAdj": {tuple(x) for x in bad}})
